@@ -22,6 +22,7 @@ void __CPROVER_assume(_Bool);
 void __CPROVER_assert(_Bool, const char *);
 #endif
 #endif
+void verif_strlen_hint(uint8_t * p, uint32_t len);   /* Engine B: register the job-constant length of a symbolic C string (see ir2c/prelude_base.h) */
 void verif_witness(void);               /* native: records that the end of the harness was reached */
 #ifdef __cplusplus
 }
